@@ -6,6 +6,10 @@ _NOTE = ("Bounded: holds for all values within the bounds recorded in the eviden
 _TECH = "symbolic execution of the real Python code on z3-backed proxy values (BV64/Float64/Real), branch decisions and obligations decided by z3, counterexamples replayed concretely"
 
 CLAIMS = {
+    "C19": {
+        "text": "Bounded relational symbolic model checking: in one path an AirTouch 4 stack and an AirTouch 5 stack (real connect()+init(), real sockets) face scripted consoles that describe the same symbolic installation and state, restricted to what both protocols express (integer set-points, common codes, no bypass, equal heat/cool limits); a solver-enumerated shared getter must return equal values (only the fields it depends on are symbolic), and a solver-enumerated shared request with symbolic arguments must be accepted or refused by both and, when accepted, carry the same protocol meaning on each wire format as read by that generation's reference reader.",
+        "note": _NOTE, "technique": _TECH, "design_ref": "DESIGN.md section 6 C19",
+    },
     "C18": {
         "text": "Bounded symbolic model checking of the real discover() (both search loops, the datagram protocol, both decoders, the factory) on a virtual-time loop with stubbed UDP: response datagrams built from the vendor format with free bytes per part (commas allowed in the AT5 name), duplicates, same-id twins, request echoes, wrong part counts, misplaced id, the other generation's format, invalid UTF-8, short free datagrams, arriving at solver-chosen instants; z3 shows at most three fixed requests at 0.5 s spacing to the right address/port (broadcast and unicast), stop after the first interval with an answer, return by 1.5 s, exactly one correct entry per valid response, nothing for anything else, and clients with the right model and TCP port.",
         "note": _NOTE, "technique": _TECH, "design_ref": "DESIGN.md section 6 C18",
@@ -80,5 +84,4 @@ CLAIMS = {
     },
 }
 
-_PENDING = "check not built yet in this round (engine first); see DESIGN.md section 10 build order"
-NOT_APPLICABLE = {f"C{n:02d}": _PENDING for n in range(1, 20) if f"C{n:02d}" not in CLAIMS}
+NOT_APPLICABLE = {}   # every property is claimed by a solver-based check (bounded; see each evidence file)
